@@ -1,5 +1,5 @@
 import PedVerif.Drv.Util
-import PedVerif.Spec.Validate
+import PedVerif.Spec.ValidateRegions
 namespace PedVerif.Drv.Validate
 open Lean PedVerif.Drv PedVerif.Validate PedVerif.Gen.Validate
 
@@ -73,6 +73,7 @@ def excJ : VExc → Json
   | .keyError => jArr [jStr "ESC:KeyError"]
   | .notCalled => jArr [jStr "notCalled"]
   | .bodyTypeError => jArr [jStr "CALL:TypeError"]
+  | .unboundLocal => jArr [jStr "ESC:UnboundLocalError"]
 def assocJ (a : Assoc) : Json := jArr (a.map fun kv => jArr [jNat kv.1, pvJ kv.2])
 def bindingJ (b : Binding) : Json := mkObj [("named", assocJ b.named), ("extras", jArr (b.extras.map pvJ))]
 def exJ {α} (f : α → Json) : Except VExc α → Json
@@ -87,13 +88,16 @@ def handleOne (c : Json) : Json :=
   let kw := (jL (jF c "kw")).map fun p => (jN (jAt p 0), pvOf (jAt p 1))
   let m := modeOf (jF c "mode")
   let g := gate cfg args kw
-  -- the coarse set of permitted values is only consulted for `*args` functions (every other call is judged by name)
+  -- the coarse set of permitted values is only consulted for what lands in `*args` (named parameters are judged by name)
   let needAllowed := cfg.sig.varArgs
+  -- the regions of the recorded findings = the complements of the guards of the `_partial` theorems (Spec/ValidateRegions.lean)
+  let regions := mkObj [("surplus", Json.bool (!surplusGuard cfg args kw)), ("arrival", Json.bool (!handOverGuard cfg m args kw))]
   mkObj [("model", exJ bindingJ (runValidate cfg (jB (jF c "async")) m args kw)),
          ("spec", mkObj [("byName", exJ assocJ (byName cfg m args kw)),
                          ("gate", mkObj [("journal", jArr (g.journal.map fun e => jArr [jNat e.1, jNat e.2.1, pvJ e.2.2])),
                                          ("out", exJ assocJ g.out)]),
-                         ("allowed", jArr (if needAllowed then (allowedValues cfg args kw).map pvJ else []))])]
+                         ("allowed", jArr (if needAllowed then (allowedValues cfg args kw).map pvJ else []))]),
+         ("regions", regions)]
 
 /-- a single call, or a scenario `{"calls": [<call>, …]}` — a history of calls of one or two decorated functions, some of them
     made by a validator of another call while that call is still running.  The model answers for every call on its own:
